@@ -670,3 +670,26 @@ def inlined(crate, body):
         return body
     nb, _used = inline_body(crate, body, idx)
     return nb if nb is not None else body
+
+
+def expand_local_helpers(crate, body, keep=()):
+    """body with every call of a private, non-recursive free function of the same crate expanded (used where a rule reads
+    one function's decision table and a refactoring may have moved part of it into a helper); `keep`: paths that stay calls"""
+    idx = _INDEX.get(id(crate))
+    if idx is None:
+        idx = {b.path: b for b in crate.bodies}
+        _INDEX[id(crate)] = idx
+
+    def helper(callee):
+        if callee.kind != "Fn" or callee.impl_trait is not None or callee.path in keep or callee.path in PROTECTED:
+            return False
+        if callee.path != callee.root or len(callee.blocks) > MAX_BLOCKS:
+            return False
+        for blk in callee.blocks:
+            if blk["term"]["k"] == "call":
+                fn = _fn_of(blk["term"])
+                if fn is not None and fn.get("path") == callee.path:
+                    return False
+        return True
+    nb, _used = inline_body(crate, body, idx, 0, helper)
+    return nb if nb is not None else body
